@@ -142,7 +142,10 @@ BREAK = {
     ],
     'C13': [
         (['C13.e'], UA, "                msg_data = data[off_start:off_end]", "                msg_data = data[off_start:]"),
-        (['C13.a'], UA, "        if mtu is None or len(data) < mtu:", "        if mtu is None or len(data) < 2 * mtu:"),
+        (['C13.a'], UA, "        if mtu is None or len(data) <= mtu:", "        if mtu is None or len(data) <= 2 * mtu:"),
+        (['C13.a'], UA, "        if mtu is None or len(data) <= mtu:", "        if mtu is None or len(data) < mtu:"),
+        (['C13.b'], UA, "                except Exception as err:\n                    self._fail_cur_item(err)\n                    continue\n\n            # accounting in millibytes", "\n            # accounting in millibytes"),
+        (['C13.e'], UA, "        try:\n            self._recv_datagram(sock, data, conv, ip_tos)\n        except Exception as err:\n            self.__logger.error('Failed handling datagram from %s: %s', conv, err)\n", "        self._recv_datagram(sock, data, conv, ip_tos)\n"),
         (['C13.b'], UA, "            if remain_size <= 0:\n                raise RuntimeError('Segment overhead {} too large for MTU {}'.format(mtu - remain_size, mtu))\n\n            frag_offset = 0", "\n            frag_offset = 0"),
         (['C13.c'], UA, "            remain_size = mtu - (ext_base_encsize - 1 + data_size_encsize)", "            remain_size = mtu - (ext_base_encsize - 1)"),
         (['C13.f'], UA, "        self._rx_queue[item.transfer_id] = item\n        self.recv_bundle_finished(str(item.transfer_id), item.total_length, metadata)", "        self.recv_bundle_finished(str(item.transfer_id), item.total_length, metadata)\n        self._rx_queue[item.transfer_id] = item"),
@@ -201,7 +204,10 @@ BREAK = {
         (['C19.d'], BA, "                    # the step took over transmission (e.g. sent fragments)\n                    self._logger.debug('Step %5.1f interrupted the chain', step.order)\n                    return", "                    self._logger.debug('Step %5.1f interrupted the chain', step.order)\n                    break"),
     ],
     'C20': [
-        (['C20.b'], BT, "        if mtu is None or total_len < (mtu - 4):", "        if mtu is None or total_len < mtu:"),
+        (['C20.b'], BT, "        if mtu is None or total_len <= (mtu - 4):", "        if mtu is None or total_len <= mtu:"),
+        (['C20.b'], BT, "            if total_len > 0xFFFFF:\n                # the message length field has 20 bits\n                raise RuntimeError('Bundle size {} too large for one message'.format(total_len))\n", ""),
+        (['C20.d'], BT, "                    if xfer.timeout_id is not None:\n                        glib.source_remove(xfer.timeout_id)\n                    xfer.timeout_id = glib.timeout_add(RX_XFER_TIMEOUT_MS, self._rx_progress_cancel, key)", "                    glib.timeout_add(RX_XFER_TIMEOUT_MS, self._rx_progress_cancel, key)"),
+        (['C20.d'], BT, "                    xfer.data[msg.payload.seg_idx] = bytes(msg.payload.payload)", "                    xfer.data[msg.payload.seg_idx] = msg.payload.payload.load"),
         (['C20.c'], BT, "            remain_size = mtu - len(msg_head) - 8", "            remain_size = mtu - len(msg_head)"),
         (['C20.d'], BT, "                        if xfer.got_idx == full_idx:", "                        if xfer.got_idx.upper == full_idx.upper:"),
         (['C20.e'], BT, "                    if xfer.got_end is not None:", "                    if xfer.got_end:"),
